@@ -7,11 +7,14 @@ package props
 
 import (
 	"fmt"
+	"os"
+	"path/filepath"
 	"sort"
 	"time"
 
 	"github.com/Trendyol/go-dcp/config"
 	"github.com/Trendyol/go-dcp/couchbase"
+	"github.com/Trendyol/go-dcp/metadata"
 	"github.com/Trendyol/go-dcp/models"
 	"github.com/Trendyol/go-dcp/stream"
 	"github.com/Trendyol/go-dcp/tracing"
@@ -40,6 +43,7 @@ type hScenario struct {
 	Ops    []hOp  `json:"ops"`
 	Finite bool   `json:"finite,omitempty"`
 	Reset  string `json:"reset,omitempty"` // checkpoint.autoReset
+	File   bool   `json:"file,omitempty"`  // real file metadata backend (whole-state writes) instead of the per-vBucket fake
 }
 
 // ---------- server model (survives restarts) ----------
@@ -104,6 +108,9 @@ type session struct {
 	cons   *fakeConsumer
 	disc   *fakeDiscovery
 	discI  stream.VBucketDiscovery // optional: a real discovery object instead of the fake (C16)
+	metaI  metadata.Metadata       // optional: a real backend (file) instead of the fake store
+	saved  map[uint16]ckTuple      // file backend model: what the last save wrote (whole state)
+	fpath  string
 	hand   *fakeHandler
 	st     stream.Stream
 	stopCh chan struct{}
@@ -178,6 +185,17 @@ func newSession(sc *hScenario, oracles ...string) *session {
 	}
 	s.lo, s.hi = sc.Lo, sc.Hi
 	s.meta.onWrite = s.onDurableWrite
+	if sc.File {
+		dir := os.Getenv("VERIF_WORK")
+		if dir == "" {
+			dir = os.TempDir()
+		}
+		s.fpath = filepath.Join(dir, fmt.Sprintf("hist-%d-%d.json", os.Getpid(), tick()))
+		s.cfg.Metadata.Type = "file"
+		s.cfg.Metadata.Config = map[string]string{"fileName": s.fpath}
+		s.metaI = metadata.NewFSMetadata(s.cfg)
+		s.saved = map[uint16]ckTuple{}
+	}
 	return s
 }
 
@@ -208,7 +226,11 @@ func (s *session) openDeferred() {
 	if s.discI != nil {
 		disc = s.discI
 	}
-	s.st = stream.NewStream(s.cl, s.meta, s.cfg, &couchbase.Version{Major: 7, Minor: 6}, &couchbase.BucketInfo{BucketType: "membase"},
+	var md metadata.Metadata = s.meta
+	if s.metaI != nil {
+		md = s.metaI
+	}
+	s.st = stream.NewStream(s.cl, md, s.cfg, &couchbase.Version{Major: 7, Minor: 6}, &couchbase.BucketInfo{BucketType: "membase"},
 		disc, s.cons, map[uint32]string{}, s.stopCh, s.hand, tracing.NewTracerComponent())
 }
 
@@ -231,9 +253,21 @@ func (s *session) buildModel(nOpens int) {
 		m.maxTuple = m.resume
 		m.lastSent = m.resume.Seq
 		m.tuples[m.resume] = true
+		if s.metaI != nil {
+			if want := s.saved[o.Vb]; m.resume != want {
+				s.fail("C02", "vb %d: session opened at %+v, the checkpoint last persisted through the file backend is %+v", o.Vb, m.resume, want)
+			}
+			if len(s.saved) > 0 {
+				s.label("file_reload_checked")
+			}
+		}
 		sv := s.srv[o.Vb]
 		m.sentIdx = sort.Search(len(sv.hist), func(i int) bool { return sv.hist[i].Seq > m.resume.Seq })
-		if _, stored := s.meta.snapshot()[o.Vb]; !stored && m.resume.Seq != 0 {
+		_, stored := s.meta.snapshot()[o.Vb]
+		if s.metaI != nil {
+			_, stored = s.saved[o.Vb]
+		}
+		if !stored && m.resume.Seq != 0 {
 			m.savedGen = -1 // auto-reset "latest" flags the initial position for saving
 			s.cleanSince = false
 		}
@@ -967,6 +1001,30 @@ func (s *session) save(op hOp) {
 	if s.inflight != nil {
 		return
 	}
+	if s.metaI != nil {
+		// whole-state backend: a save that happens writes the current position of EVERY vBucket of the session
+		flagged := false
+		for _, m := range s.vbs {
+			flagged = flagged || m.dirtyGen != m.savedGen
+		}
+		if ok, pv := within(20*time.Second, func() { s.st.Save() }); !ok || pv != nil {
+			s.fail("C02", "Save() through the file backend: returned=%v panic=%v", ok, pv)
+			return
+		}
+		if flagged {
+			for vb, m := range s.vbs {
+				s.saved[vb] = m.maxTuple
+				m.savedGen = m.dirtyGen
+			}
+			s.label("file_save")
+			for _, m := range s.vbs {
+				if m.maxSettle == m.resume.Seq {
+					s.label("file_save_with_idle_vbucket")
+				}
+			}
+		}
+		return
+	}
 	s.noteSaveBegin()
 	clean := s.cleanSince
 	s.meta.mu.Lock()
@@ -1225,6 +1283,9 @@ func (s *session) drainQueued() {
 
 // end-of-history checks common to all properties using the engine
 func (s *session) finish() {
+	if s.fpath != "" {
+		defer os.Remove(s.fpath)
+	}
 	if s.inflight != nil {
 		s.meta.release <- saveOutcome{writes: -1}
 		<-s.saveDone
